@@ -341,6 +341,10 @@ func EnumCase(r *rand.Rand, name string, o EnumOpts) (*Case, string) {
 			default:
 				cv.Lines = append(cv.Lines, "enum:exclude "+c.Root+"/"+eb.Path+":FlagsB")
 			}
+			if r.Intn(2) == 0 {
+				// a second, unrelated exclude pattern: patterns are alternatives
+				cv.Lines = append(cv.Lines, "enum:exclude "+c.Root+"/nosuchpkg:Nothing")
+			}
 			c.Feature("exclude", "true")
 		}
 		if unexported == "" && r.Intn(2) == 0 {
